@@ -73,7 +73,7 @@ EXPORT errno_t _memzero16_s_chk(uint16_t *dest, rsize_t len,
                                 const size_t destbos)
 #endif
 {
-    rsize_t dmax = len * 2;
+    rsize_t dmax = SAFEC_MUL_SAT(len, 2);
     CHK_DEST_MEM_NULL("memzero16_s")
     CHK_DMAX_MEM_ZERO("memzero16_s")
 
